@@ -14,6 +14,41 @@ CHECKS = {
                      'trace validated by TLC against the monitor ObsC09 (mutual exclusion, FIFO grants, available, never stuck).',
                 note='Bounded: <=3 contenders, <=5 ops each, 1 lock, small horizon. Trusts TLC, the puppet harness '
                      '(public API only) and the event vocabulary; the verdict comes only from real traces rejected by ObsC09.'),
+    'C03': dict(obs='ObsC03', ref='4/C03',
+                text='TLC checks on every reachable state of the bounded USim configurations that the kernel model never reaches '
+                     'a fault state (resuming finished activities, foreign CancelTask, signals outside their wait/scope); the '
+                     'witness programs (scope aborts, nested scopes, cancellation, until, cancel racing forced close) run on the '
+                     'real code and TLC validates every trace against ObsC03: how run() ended (internal exception classes, '
+                     'livelock guard) and every signal seen by user code must belong to an open scope / the task itself.',
+                note='Bounded programs; livelock is detected by an activation bound per time step in the harness; '
+                     'classification of an exception as internal is by its class/arguments (harness exceptions carry integer ids).'),
+    'C04': dict(obs='ObsC04', ref='4/C04',
+                text='TLC model-checks containment (Contained, NoStepAfterExit) on all client programs of the bounded scope '
+                     'configurations (abort, nested, graceful, until; volatile children; clean-up handlers that spawn or raise '
+                     'while being closed); witness programs are replayed on the real Scope/Task code and TLC validates each real '
+                     'trace against ObsC04 (no event of a task or descendant after its scope exit, every child done at exit, '
+                     'graceful exit waits for non-volatile children, volatile closed last, spawn into ended scope refused).',
+                note='Bounded: <=4 activities, <=2 scopes, <=5 ops. Puppets observe through the public API only.'),
+    'C05': dict(obs='ObsC05', ref='4/C05',
+                text='Exhaustive TLC exploration of scope failure scenarios (body/child failures incl. privileged and nested '
+                     'Concurrent, failures raised in clean-up while being closed, until) with replay on the real code; TLC '
+                     'validates real traces against ObsC05: outcome is none / the body\'s own exception / Concurrent with exactly '
+                     'the failed direct children in order / first privileged unwrapped; exit at the time of the first failure; '
+                     'all remaining children aborted.',
+                note='Bounded programs; exception identity is by integer ids carried in the exception arguments.'),
+    'C06': dict(obs='ObsC06', ref='4/C06',
+                text='TLC explores cancel() at every activation boundary (before start, delayed start, suspended, finished, '
+                     'repeated, self-cancel, racing a forced close) with awaiters and status probes; replay on the real Task; '
+                     'TLC validates traces against ObsC06 (status forward-only, stable result, all awaiters agree, pre-start cancel '
+                     'prevents any code, suspended cancel lands in the same time step, cancel never breaks scope/run).',
+                note='Bounded programs. A delayed task cancelled in the very time step of its start date is treated as racing '
+                     '(either outcome accepted), see DESIGN.md section 6.'),
+    'C07': dict(obs='ObsC07', ref='4/C07',
+                text='TLC explores until(delay)/until(flag) (already true, set/reset in one step, nested, equal deadlines) racing '
+                     'with completion, children and failures; replay on the real code; TLC validates against ObsC07: block ends '
+                     'no later than the trigger time, never raises its own interrupt, no owner/child code after the trigger, no '
+                     'interrupt after completion.',
+                note='Bounded programs; notification kinds in this round: delay and flag (time conditions are covered by C01/C08 configs).'),
 }
 
 
